@@ -231,6 +231,10 @@ def link_and_run(ctx, prog, which, args, mainobj, d, rec):
         target = out
     else:
         out = os.path.join(d, which + ".out")
+        if which == "wild" and os.environ.get("VERIF_SELFTEST") == "reverse":
+            inputs = [a for a in args if a.endswith(".o")]
+            it = iter(inputs[::-1])
+            args = [next(it) if a.endswith(".o") else a for a in args]
         res = rec.link(which, args, out)
         if not xlink.linked_ok(res, out):
             return None, None, res, out
